@@ -62,6 +62,9 @@ type C05Case struct {
 
 type c05Fleet struct {
 	lastAppTxn [8]int64 // per instance: id of its application's most recent write transaction
+	// appPuts: per instance, the keys (dbi/key) whose last application operation in the instance's current life
+	// (since its last restart with an emptied LMDB) was a put
+	appPuts [8]map[string]bool
 	c          C05Case
 	b          *fault.Bucket
 	nodes      []*Node
@@ -303,6 +306,14 @@ func (f *c05Fleet) appCommitHold(i int, changes []SChange, hold func()) error {
 		for _, ch := range changes {
 			dbiName := fleetDBIs[ch.DBI%len(fleetDBIs)]
 			key := fleetKeys[ch.Key%len(fleetKeys)]
+			if f.appPuts[i] == nil {
+				f.appPuts[i] = map[string]bool{}
+			}
+			if ch.Op == "del" || (f.c.Dup && !f.c.Native && ch.DBI%len(fleetDBIs) == 2) {
+				delete(f.appPuts[i], dbiName+"/"+string(key))
+			} else {
+				f.appPuts[i][dbiName+"/"+string(key)] = true
+			}
 			fl := uint(lmdb.Create)
 			isDup := f.c.Dup && !f.c.Native && ch.DBI%len(fleetDBIs) == 2
 			if isDup {
@@ -463,6 +474,7 @@ func (f *c05Fleet) exec(oi int, op C05Op) error {
 		if !op.Keep {
 			nd.Env.Close()
 			nd.Env = lm.New(64<<20, 24)
+			f.appPuts[i] = nil
 			f.stats.emptiedRestart++
 		}
 		if _, err := nd.Start(); err != nil {
@@ -529,6 +541,29 @@ func checkC05(c C05Case, o *vcore.Obs) error {
 			}
 		}
 		time.Sleep(2 * time.Millisecond)
+	}
+	// C09 inside this fleet: a loop that reports every transaction up to the LMDB's last one as uploaded (the number it
+	// passes at its sync.* yield points is "the last transaction we uploaded") has an own snapshot in the bucket that
+	// holds an entry for every key its application put in this life
+	if err := f.replayLog("end"); err != nil {
+		return err
+	}
+	newest := f.newestPerInstance()
+	for i, nd := range f.nodes {
+		if !nd.parked || !strings.HasPrefix(nd.At.Point, "sync.") || int64(nd.At.N) != lm.LastTxnID(nd.Env.Env) || f.held[i] != nil {
+			continue
+		}
+		own := newest[nd.Name]
+		if own == "" && storesBy(f.b, nd.Name, 0) > 0 {
+			continue // (its snapshots were cleaned away as those of a stale instance: C05's clauses cover that)
+		}
+		for id := range f.appPuts[i] {
+			parts := strings.SplitN(id, "/", 2)
+			if _, ok := f.decoded[own][parts[0]][parts[1]]; !ok || own == "" {
+				return fmt.Errorf("the loop of %s reports everything up to LMDB transaction %d (the last one) as uploaded, but its newest snapshot %q has no entry for %s/%x, which its application put: a committed change was not published (C09)", nd.Name, nd.At.N, own, parts[0], parts[1])
+			}
+		}
+		o.ClassIf(len(f.appPuts[i]) > 0, "synced-loop-checked-against-its-newest-snapshot")
 	}
 	o.NonTrivial((f.stats.emptiedRestart > 0 && f.stats.soleCopyAtRisk) || f.stats.cleanerDeletedNewest > 0)
 	f.excludedFindings(o)
